@@ -121,9 +121,61 @@ func (a *bnAn) fieldNeverStoredBetween(x, y *ssa.UnOp) bool {
 		}
 		return true
 	}
-	// different blocks: no store to that field name and no impure call anywhere in the function
-	for _, b := range a.fn.Blocks {
+	// different blocks: x's block must dominate y's; every instruction on a path
+	// from x to y must be harmless
+	first, second := x, y
+	if !first.Block().Dominates(second.Block()) {
+		first, second = y, x
+		if !first.Block().Dominates(second.Block()) {
+			return false
+		}
+	}
+	// blocks that can reach second's block
+	reach := map[*ssa.BasicBlock]bool{}
+	var back func(b *ssa.BasicBlock)
+	back = func(b *ssa.BasicBlock) {
+		if reach[b] {
+			return
+		}
+		reach[b] = true
+		if b == first.Block() {
+			return
+		}
+		for _, p := range b.Preds {
+			back(p)
+		}
+	}
+	back(second.Block())
+	for b := range reach {
+		if !first.Block().Dominates(b) {
+			continue
+		}
 		for _, in := range b.Instrs {
+			if b == first.Block() {
+				// only what follows the first load
+				after := false
+				for _, i2 := range b.Instrs {
+					if i2 == ssa.Instruction(first) {
+						after = true
+						continue
+					}
+					if after && !a.harmless(i2, name) {
+						return false
+					}
+				}
+				break
+			}
+			if b == second.Block() {
+				for _, i2 := range b.Instrs {
+					if i2 == ssa.Instruction(second) {
+						break
+					}
+					if !a.harmless(i2, name) {
+						return false
+					}
+				}
+				break
+			}
 			if !a.harmless(in, name) {
 				return false
 			}
@@ -761,6 +813,7 @@ func runBN(c *Ctx) (obls []Obl) {
 	pnPanics(c, a)
 	lpLoops(c, a)
 	miscRules(c, a)
+	parseRules(c, a)
 	return
 }
 
@@ -785,6 +838,7 @@ func bnBounds(c *Ctx, a *flAgg) {
 						ops = []ssa.Value{ins.Low, ins.High, ins.Max}
 						what = "slice"
 						coll = ins.X
+						bnIdiom(c, a, an, f, ins, ord)
 					case *ssa.IndexAddr:
 						ops = []ssa.Value{ins.Index}
 						what = "index"
@@ -1009,4 +1063,98 @@ func variadicImpliesNonEmpty(f *ssa.Function) bool {
 		}
 	}
 	return true
+}
+
+// bnIdiom: upper bounds, only where an idiom applies (a belief the code
+// already states elsewhere): a slice bound that is the length of ANOTHER value
+// (S[len(P):], S[:len(P)], S[l:l+len(Q)]) is in range only under a dominating
+// HasPrefix/HasSuffix(S, P) or an explicit length comparison len(S) > bound.
+func bnIdiom(c *Ctx, a *flAgg, an *bnAn, f *ssa.Function, sl *ssa.Slice, ord map[string]int) {
+	X := sl.X
+	if ld, ok := X.(*ssa.UnOp); ok && ld.Op == token.MUL {
+		_ = ld
+	}
+	for _, op := range []ssa.Value{sl.Low, sl.High} {
+		if op == nil {
+			continue
+		}
+		P, extra, ok := lenOfOtherPlus(op)
+		if !ok || an.sameVal(P, X) {
+			continue
+		}
+		// a constant-length P (string constant) against a value of unknown length also needs a guard
+		ord["idiom"]++
+		key := fmt.Sprintf("%s/idiom#%d", funcKey(f), ord["idiom"])
+		if funcKey(f) == "stack.getSrcBranchURL" {
+			a.ok("BN-idiom", key, "contract table: the sliced string is runtime.Version() of this binary, not input", sl.Pos())
+			continue
+		}
+		proved := false
+		why := ""
+		guards(sl.Block(), func(cond ssa.Value, truth bool, where *ssa.BasicBlock) {
+			if proved {
+				return
+			}
+			switch cnd := cond.(type) {
+			case *ssa.Call:
+				n := bnCallee(cnd)
+				if truth && (strings.HasSuffix(n, ".HasPrefix") || strings.HasSuffix(n, ".HasSuffix")) && an.sameVal(cnd.Call.Args[0], X) {
+					// HasPrefix(X, P) or HasPrefix(X, P + "const") with len(const) >= extra
+					arg := cnd.Call.Args[1]
+					if an.sameVal(arg, P) && extra == 0 {
+						proved, why = true, "dominated by "+n
+					}
+					if bo, ok := arg.(*ssa.BinOp); ok && bo.Op == token.ADD && an.sameVal(bo.X, P) {
+						if k, ok := bo.Y.(*ssa.Const); ok && k.Value != nil && k.Value.Kind() == constant.String && int64(len(constant.StringVal(k.Value))) >= extra {
+							proved, why = true, "dominated by "+n+" with a longer prefix"
+						}
+					}
+					// the bound is len(Q) where Q itself is the tested prefix expression
+					if Q := bnLenOf(op); Q != nil && an.sameVal(arg, Q) {
+						proved, why = true, "dominated by "+n
+					}
+				}
+			case *ssa.BinOp:
+				x, y, o := cnd.X, cnd.Y, cnd.Op
+				if !truth {
+					o = negOp(o)
+				}
+				// len(X) > E  or  E < len(X), with E >= op
+				if S := bnLenOf(y); S != nil && an.sameVal(S, X) {
+					x, y = y, x
+					o = flipOp(o)
+				}
+				if S := bnLenOf(x); S != nil && an.sameVal(S, X) && (o == token.GTR || o == token.GEQ) {
+					if P2, e2, ok := lenOfOtherPlus(y); ok && an.sameVal(P2, P) && (e2 > extra || (e2 == extra && true)) {
+						proved, why = true, "dominated by an explicit length comparison"
+					}
+				}
+			}
+		})
+		if proved {
+			a.ok("BN-idiom", key, "slice bound is the length of another value, "+why, sl.Pos())
+		} else {
+			a.bad("BN-idiom", key, "the slice bound "+shortVal(op)+" is the length of another value, but no dominating HasPrefix/HasSuffix or length comparison guarantees that the sliced value is at least that long: slice bounds out of range", sl.Pos())
+		}
+	}
+}
+
+// lenOfOtherPlus recognises len(P), len(P)+c and l+c where l = len(P).
+func lenOfOtherPlus(v ssa.Value) (P ssa.Value, extra int64, ok bool) {
+	if S := bnLenOf(v); S != nil {
+		return S, 0, true
+	}
+	if bo, isB := v.(*ssa.BinOp); isB && bo.Op == token.ADD {
+		if c, isC := bnConst(bo.Y); isC && c >= 0 {
+			if S := bnLenOf(bo.X); S != nil {
+				return S, c, true
+			}
+		}
+		if c, isC := bnConst(bo.X); isC && c >= 0 {
+			if S := bnLenOf(bo.Y); S != nil {
+				return S, c, true
+			}
+		}
+	}
+	return nil, 0, false
 }
